@@ -2,7 +2,8 @@
 
 correspondence: Model/Union.lean (mkUnion / complement / render / iteration machine) against
 `sympde.topology.basic.Union` on random families, nestings and operation sequences.
-oracle: Python frozenset semantics on the member names, evaluated on the real code only.
+oracle: Python frozenset semantics on the member names, evaluated on the real code only; for families with members
+that print alike and for sessions re-using names in other dimensions: set semantics on object identity (id()).
 """
 import itertools
 import json
@@ -15,14 +16,15 @@ PROPS_MODULE = 'SympdeModel.Props.C14'
 RULE = ('random families of real sympde objects (InteriorDomain with/without dim, NCubeInterior, Boundary faces of plain '
         'and mapped patches, Interface, Domain; hygienic unique names, 1D-3D) combined by random nested Union(...) programs '
         '(None members, duplicates, equal copies, nested unions up to depth 3, a stream with mixed dimensions and '
-        'non-domain arguments); every real Union(...) call is one case (arguments serialised as the constructor sees them), '
+        'non-domain arguments; a stream of sessions re-using the same names for members of another dimension); every real Union(...) call is one case (arguments serialised as the constructor sees them), '
         'plus per resulting Union object: random operation sequences iter()/next() on several live iterators '
         '(random interleavings and nested-for / zip shaped sequences), complement()/__sub__ with None / member / non-member / '
         'Union / list / int arguments, str(). Non-trivial = the call flattens a Union argument, drops a None or a duplicate, '
         'is refused, or the sequence has >= 2 live iterators / the complement removes something; distinct by request line')
 ASSUMPTIONS = [
     'name hygiene: str() is injective on the members that meet in one union (sympde objects compare by class and name; '
-    'identity by name is property C12) - hypothesis KeyInj/Hygienic of the theorems, guaranteed by the generators',
+    'identity by name is property C12) - hypothesis KeyInj/Hygienic of the theorems, guaranteed by the generators of the '
+    'correspondence run (the oracle additionally checks unions with members that print alike, as sets of objects)',
     'Python str comparison = Lean String order (both lexicographic on code points); Python set()/sorted() modelled by '
     'dedup + stable insertion sort (checked by the correspondence run on every case)',
     'a Union object handed to Union(...) or complement(...) was itself produced by Union.__new__ (members of one dimension)',
@@ -264,6 +266,15 @@ def correspondence(ctx):
             add('union', line, ser_res(r, m), nt)
             if isinstance(r, m['Union']):
                 unions[members_sexp(r)] = (r, pool.objs + (other.objs if other is not None else []))
+    # sessions in which the same names come back with another dimension (the constructor must not remember earlier calls)
+    for i in range(200 if ctx.thorough else 40):
+        for step in gen_session(rng, prefix='g'):
+            calls = []
+            run_step(step, m, calls)
+            c.count('stream:name-reuse')
+            for args, r in calls:
+                line = 'C14 union ' + ' '.join(dumps(ser_arg(a, m)) for a in args)
+                add('union', line, ser_res(r, m), any(a is None or isinstance(a, m['Union']) for a in args) or isinstance(r, BaseException))
     # operations on the resulting Union objects
     for ms, (U, objs) in list(unions.items()):
         n = len(U.args)
@@ -593,6 +604,339 @@ def same_name_members(o, m, rng):
                 o.fail('same-name:%s:complement' % tag, 'complement on a union with same-named members removed the wrong members')
 
 
+# --------------------------------------------------------------------------- members that print alike (ties)
+
+class TiePool:
+    """real objects of one dimension, every one created exactly once (so object identity is the ground truth of
+    'the same member'), containing GROUPS of distinct members that print alike: a patch and its own interior, a
+    Domain and its interior, a patch and a Domain of one name (4 objects, one string), the two interfaces of a
+    two-patch ring, equally named faces on equally named domains, a mapped patch and its interior.
+    `objs` = [(label, object)], labels unique and descriptive (the strings are not)"""
+
+    counter = 0
+
+    def __init__(self, rng, dim, m, tag=None, full=False):
+        TiePool.counter += 1
+        self.tag = t = tag if tag is not None else 't%d' % TiePool.counter
+        self.dim = dim
+        mk = {1: m['Line'], 2: m['Square'], 3: m['Cube']}[dim]
+        I, D, B = m['InteriorDomain'], m['Domain'], m['Boundary']
+        nm = lambda s: '%s%s' % (s, t)
+        take = lambda p: full or rng.random() < p
+        objs = []
+        P, Q, R = mk(nm('P')), mk(nm('Q')), mk(nm('R'))
+        if take(0.6):                                   # patch / its interior
+            objs += [(nm('P') + '(patch)', P), (nm('P') + '(interior)', P.interior)]
+        else:
+            objs += [(nm('P') + '(interior)', P.interior)]
+        objs += [(nm('Q') + '(interior)', Q.interior)]
+        if take(0.7):                                   # ring of two patches: two interfaces 'P|Q', one more 'Q|R'
+            kw = {} if dim < 3 else {'ornt': (1, rng.choice([1, -1]), 1)}
+            ax = rng.randrange(dim)
+            I1 = P.get_boundary(axis=ax, ext=1).join(Q.get_boundary(axis=ax, ext=-1), **kw)
+            I2 = P.get_boundary(axis=ax, ext=-1).join(Q.get_boundary(axis=ax, ext=1), **kw)
+            I3 = Q.get_boundary(axis=(ax + 1) % dim, ext=1).join(R.get_boundary(axis=(ax + 1) % dim, ext=-1), **kw)
+            objs += [('%s|%s(+-)' % (nm('P'), nm('Q')), I1), ('%s|%s(-+)' % (nm('P'), nm('Q')), I2)]
+            if take(0.5):
+                objs += [('%s|%s' % (nm('Q'), nm('R')), I3)]
+        if take(0.7):                                   # an undefined Domain and its interior
+            Dm = D(nm('D'), dim=dim)
+            objs += [(nm('D') + '(Domain)', Dm), (nm('D') + '(interior)', Dm.interior)]
+            if take(0.5):                               # ... and a patch of the same name: 3-4 objects, one string
+                S = mk(nm('D'))
+                objs += [(nm('D') + '(patch)', S)]
+                if take(0.5):
+                    objs += [(nm('D') + '(patch interior)', S.interior)]
+                if take(0.6):                           # equally named faces on equally named domains
+                    f = S.get_boundary(axis=rng.randrange(dim), ext=rng.choice([-1, 1]))
+                    objs += [('%s(face of patch)' % f, f), ('%s(face of Domain)' % f, B(f.name, Dm))]
+            elif take(0.5):
+                objs += [('%s_G(on Domain)' % nm('D'), B('G', Dm)), ('%s_G(on interior)' % nm('D'), B('G', Dm.interior))]
+        if take(0.35):                                  # a mapped patch and its interior
+            MP = m['Mapping']('F' + t, dim=dim)(mk(nm('E')))
+            objs += [(str(MP) + '(mapped patch)', MP), (str(MP) + '(mapped interior)', MP.interior)]
+        for k in range(rng.randint(0, 2)):              # ordinary members
+            objs += [('%s%d' % (nm('a'), k), I('%s%d' % (nm('a'), k), dim=dim))]
+        self.objs = objs
+        self.groups = {}
+        for l, x in objs:
+            self.groups.setdefault(str(x), []).append(l)
+        self.nties = sum(1 for g in self.groups.values() if len(g) > 1)
+        self.outsiders = [R.interior, I(nm('out'), dim=dim)]
+
+
+def _members(r, m):
+    return [] if r is None else (list(r.args) if isinstance(r, m['Union']) else [r])
+
+
+def _labels(xs, lab):
+    """labels of result members by object identity; a member that is none of the given objects is reported as such"""
+    return sorted(lab.get(id(x), '<foreign object %s>' % (x,)) for x in xs)
+
+
+def check_shape(o, r, nexp, m, key, what):
+    U = m['Union']
+    if (nexp == 0 and r is not None) or (nexp == 1 and (r is None or isinstance(r, U))) or (nexp > 1 and not isinstance(r, U)):
+        o.fail(key, '%s: a result of %d member(s) must be %s, got %r' % (what, nexp, ['None', 'the member itself'][nexp] if nexp < 2 else 'a Union', r))
+        return False
+    if isinstance(r, U):
+        keys = [str(x) for x in r.args]
+        if keys != sorted(keys) or any(isinstance(x, U) for x in r.args) or len(r) != len(r.args) or tuple(r.as_tuple()) != tuple(r.args):
+            o.fail(key, '%s: args %s are not sorted by str / contain a union / len or as_tuple disagree' % (what, keys))
+            return False
+    return True
+
+
+def check_tie_family(o, fam, outsiders, rng, m, ps, exhaustive=False):
+    """set semantics BY OBJECT IDENTITY on a family [(label, obj)] of pairwise different objects some of which print alike:
+    construction (flat, nested, permuted), complement by every kind of argument, iteration.  Ground truth: the python
+    list held here, compared through id(); nothing of sympde's ==/hash/str is used for the expectation"""
+    Un = m['Union']
+    lab = {id(x): l for l, x in fam}
+    objs = [x for _, x in fam]
+    want = sorted(lab.values())
+    n = len(objs)
+    builds = [('flat', lambda: Un(*objs))]
+    if n >= 2:
+        perm = list(objs)
+        rng.shuffle(perm)
+        i = rng.randint(0, n)
+        builds += [('permuted', lambda: Un(*perm)), ('twice', lambda: Un(*(objs + perm))),
+                   ('nested', lambda: Un(Un(*perm[:i]), None, Un(*perm[i:]))),
+                   ('nested-mixed', lambda: Un(perm[0], Un(*perm[1:]), perm[-1]))]
+    U0 = None
+    for label, b in builds:
+        o.count('tie:construct:' + label)
+        u = b()
+        got = _labels(_members(u, m), lab)
+        if got != want:
+            o.fail('tie-construct:%s:%s' % (label, ps), 'the %s union of the %d different objects %s has the members %s: members that print alike '
+                   'were collapsed, duplicated or replaced' % (label, n, want, got))
+            return
+        if not check_shape(o, u, n, m, 'tie-shape:%s:%s' % (label, ps), 'the %s union of %s' % (label, want)):
+            return
+        U0 = U0 if U0 is not None else u
+    if not isinstance(U0, Un):
+        return
+    for label, f in (('Union(U,U)', lambda: Un(U0, U0)), ('Union(U)', lambda: Un(U0)), ('U - None', lambda: U0 - None),
+                     ('U - outsider', lambda: U0.complement(outsiders[0]) if outsiders else U0)):
+        got = _labels(_members(f(), m), lab)
+        if got != want:
+            o.fail('tie-idem:%s:%s' % (label, ps), '%s of U = union of %s has the members %s' % (label, want, got))
+            return
+    # complements: every subset of a small family, otherwise every single member, U itself and random subsets
+    idx = list(range(n))
+    if exhaustive or n <= 4:
+        subsets = [s for r in range(1, n + 1) for s in itertools.combinations(idx, r)]
+    else:
+        subsets = [(k,) for k in idx] + [tuple(idx)] + [tuple(sorted(rng.sample(idx, rng.randint(2, n - 1)))) for _ in range(n + 2)]
+    for S in subsets:
+        rem = [objs[k] for k in S]
+        extra = rng.sample(outsiders, rng.randint(0, len(outsiders))) if rng.random() < 0.3 else []
+        given = rem + extra
+        rng.shuffle(given)
+        forms = ['single'] if len(given) == 1 else [rng.choice(['union', 'union', 'list', 'tuple'])]
+        if len(given) > 1 and exhaustive:
+            forms = ['union', 'list']
+        for form in forms:
+            arg = given[0] if form == 'single' else Un(*given) if form == 'union' else list(given) if form == 'list' else tuple(given)
+            o.count('tie:complement:' + form)
+            r = U0.complement(arg) if rng.random() < 0.5 else U0 - arg
+            exp = sorted(lab[id(objs[k])] for k in idx if k not in S)
+            got = _labels(_members(r, m), lab)
+            key = 'tie-complement:%s - {%s}' % (ps, ', '.join(fam[k][0] for k in S))
+            if got != exp:
+                o.fail(key, 'U - V with U = union of %s and V = %s of %s%s: the result has the members %s, expected %s (a member printing like another one was '
+                       'not removed, or the wrong one was)' % (want, form, [fam[k][0] for k in S], ' + %d non-member(s)' % len(extra) if extra else '', got, exp),
+                       removed=[fam[k][0] for k in S], got=got, expected=exp)
+                return
+            if not check_shape(o, r, len(exp), m, key, 'U - %s' % [fam[k][0] for k in S]):
+                return
+    check_iteration(o, U0, rng, ps)
+
+
+def tie_corpus(o, m, rng):
+    """fixed families with stable keys: one tie group each, complements checked for every subset"""
+    from sympde.topology import Square, Line, Cube
+    I, D, B = m['InteriorDomain'], m['Domain'], m['Boundary']
+    A_, B_, C_ = Square('c14tA'), Square('c14tB'), Square('c14tC')
+    I1 = A_.get_boundary(axis=0, ext=1).join(B_.get_boundary(axis=0, ext=-1), ornt=1)
+    I2 = A_.get_boundary(axis=0, ext=-1).join(B_.get_boundary(axis=0, ext=1), ornt=1)
+    I3 = B_.get_boundary(axis=1, ext=1).join(C_.get_boundary(axis=1, ext=-1), ornt=1)
+    Dm, Em = D('c14tD', dim=2), D('c14tE', dim=2)
+    L = Line('c14tL')
+    S = Square('c14tD')
+    f = S.get_boundary(axis=0, ext=-1)
+    K = Cube('c14tK')
+    fams = [
+        ('ring-interfaces', [('c14tA|c14tB(+-)', I1), ('c14tA|c14tB(-+)', I2), ('c14tB|c14tC', I3)]),
+        ('domain+interior', [('c14tD(Domain)', Dm), ('c14tD(interior)', Dm.interior), ('c14tE(Domain)', Em)]),
+        ('line+interior', [('c14tL(patch)', L), ('c14tL(interior)', L.interior)]),
+        ('four-of-one-name', [('c14tD(Domain)', Dm), ('c14tD(interior)', Dm.interior), ('c14tD(patch)', S), ('c14tD(patch interior)', S.interior)]),
+        ('faces-of-one-name', [('%s(face of patch)' % f, f), ('%s(face of Domain)' % f, B(f.name, Dm)), ('c14tD_G', B('G', Dm))]),
+        ('cube+interior+plain', [('c14tK(patch)', K), ('c14tK(interior)', K.interior), ('c14ta', I('c14ta', dim=3)), ('c14tz', I('c14tz', dim=3))]),
+    ]
+    for name, fam in fams:
+        o.evaluations += 1
+        o.count('tie:corpus')
+        check_tie_family(o, fam, [], rng, m, 'corpus/' + name, exhaustive=True)
+
+
+def tie_families(o, m, rng, nfam):
+    for i in range(nfam):
+        dim = rng.choice([1, 2, 2, 3])
+        tp = TiePool(rng, dim, m, full=(i == 0))
+        fam = list(tp.objs)
+        rng.shuffle(fam)
+        if rng.random() < 0.5 and len(fam) > 3:
+            # a sub-family that keeps at least one complete group of members printing alike
+            g = rng.choice([v for v in tp.groups.values() if len(v) > 1] or [[]])
+            fam = [x for x in fam if x[0] in g or rng.random() < 0.5]
+        if len(fam) < 2:
+            continue
+        o.evaluations += 1
+        o.count('tie:family')
+        o.count('tie:groups=%d' % min(3, sum(1 for v in tp.groups.values() if len([x for x in fam if x[0] in v]) > 1)))
+        ps = 'dim %d {%s}' % (dim, ', '.join(l for l, _ in fam))
+        try:
+            check_tie_family(o, fam, tp.outsiders, rng, m, ps)
+        except Exception as e:
+            o.fail('tie-raised:%s' % ps, 'union / complement on the family %s (one dimension, all domains) raised %r' % (ps, e))
+
+
+# --------------------------------------------------------------------------- sessions: one name, several dimensions
+
+HKINDS = ('interior', 'domain', 'face')
+
+
+def mk_member(kind, name, dim, m):
+    """a fresh object; all three kinds compare (== / hash) by name only - the dimension is not part of the identity"""
+    if kind == 'interior':
+        return m['InteriorDomain'](name, dim=dim)
+    if kind == 'domain':
+        return m['Domain'](name, dim=dim)
+    return m['Boundary']('G', m['Domain'](name, dim=dim))
+
+
+def step_str(step):
+    kind, spec, shape = step
+    return '%s%s[%s]' % (kind, '' if shape == 'flat' else '/' + shape, ','.join('%s:%s' % nd for nd in spec))
+
+
+def gen_session(rng, prefix='h'):
+    """a sequence of union constructions in which the SAME names are used again for members of another dimension
+    (2D and 3D models with patches 'A', 'B' in one process): [(kind, [(name, dim)], shape)]"""
+    kind = rng.choice(HKINDS)
+    dims = [1, 2, 3] + ([None] if kind == 'interior' else [])
+    names = [prefix + x for x in rng.sample(['A', 'B', 'C', 'P', 'Q'], rng.randint(2, 4))]
+    d0 = rng.choice(dims)
+    steps = [(kind, [(n, d0) for n in names], 'flat')]
+    for _ in range(rng.randint(2, 6)):
+        d1 = rng.choice([d for d in dims if d != d0])
+        k = rng.random()
+        if k < 0.3:
+            spec = [(n, d1) for n in names]
+        elif k < 0.65:
+            j = rng.randrange(len(names))
+            spec = [(n, d1 if i == j else d0) for i, n in enumerate(names)]
+        elif k < 0.8:
+            spec = [(n, d0) for n in names]
+        else:
+            spec = [(n, rng.choice([d0, d1])) for n in names]
+        if rng.random() < 0.25:
+            spec = spec[:rng.randint(2, len(spec))]
+        if rng.random() < 0.25:
+            rng.shuffle(spec)
+        steps.append((kind, spec, rng.choice(['flat', 'flat', 'flat', 'nested', 'none'])))
+        if rng.random() < 0.3:
+            d0 = d1
+    return steps
+
+
+def run_step(step, m, calls=None):
+    """-> (given objects, result or exception); every real constructor call is recorded in `calls`"""
+    kind, spec, shape = step
+    Un = m['Union']
+    objs = [mk_member(kind, n, d, m) for n, d in spec]
+
+    def call(*args):
+        try:
+            r = Un(*args)
+        except Exception as e:
+            if calls is not None:
+                calls.append((list(args), e))
+            raise Raised(e)
+        if calls is not None:
+            calls.append((list(args), r))
+        return r
+    try:
+        if shape == 'nested' and len(objs) > 2:
+            r = call(call(*objs[:2]), *objs[2:])
+        elif shape == 'none':
+            r = call(None, *objs)
+        else:
+            r = call(*objs)
+    except Raised as e:
+        r = e.exc
+    return objs, r
+
+
+def check_session(o, steps, m, tag):
+    """the outcome of every construction is determined by the members given NOW: refused iff their dimensions (as
+    created here) differ, otherwise exactly the given objects - whatever was united earlier under the same names"""
+    Un = m['Union']
+    hist = []
+    for k, step in enumerate(steps):
+        kind, spec, shape = step
+        objs, r = run_step(step, m)
+        hist.append(step_str(step))
+        o.count('history:step')
+        ds = {d for _, d in spec}
+        key = 'history:%s:%s' % (tag, ' ; '.join(hist))
+        after = ('after the constructions %s' % ' ; '.join(hist[:-1])) if k else \
+            'as the first construction of its session (earlier sessions of the run use the same names with other dimensions)'
+        if len(ds) > 1:
+            o.count('history:mixed')
+            if not isinstance(r, ValueError):
+                o.fail(key, 'Union of %s members %s (name:dim) has the dimensions %s but was not refused with ValueError %s: got %r%s'
+                       % (kind, step_str(step), sorted(map(str, ds)), after, r,
+                          ' with member dims %s' % [x.dim for x in _members(r, m)] if not isinstance(r, BaseException) else ''))
+                return
+            continue
+        o.count('history:homogeneous')
+        d = list(ds)[0]
+        if isinstance(r, BaseException):
+            o.fail(key, 'Union of the %s members %s (name:dim), all of dimension %s, raised %r %s' % (kind, step_str(step), d, r, after))
+            return
+        lab = {id(x): '%s:%s' % nd for x, nd in zip(objs, spec)}
+        got = _labels(_members(r, m), lab)
+        gdims = [x.dim for x in _members(r, m)]
+        if got != sorted(lab.values()) or any(g != d for g in gdims) or (r is not None and r.dim != d):
+            o.fail(key, 'Union of the %s members %s (name:dim) %s returned the members %s of dimensions %s, union dim %s: not the objects given'
+                   % (kind, step_str(step), after, got, gdims, getattr(r, 'dim', None)))
+            return
+        if not check_shape(o, r, len(objs), m, key, 'Union of %s' % step_str(step)):
+            return
+
+
+def history_corpus(o, m):
+    """fixed sessions with stable keys"""
+    sessions = [
+        [('interior', [('c14hA', 2), ('c14hB', 2)], 'flat'), ('interior', [('c14hA', 3), ('c14hB', 3)], 'flat'),
+         ('interior', [('c14hA', 3), ('c14hB', 2)], 'flat'), ('interior', [('c14hB', 2), ('c14hA', 3)], 'flat')],
+        [('domain', [('c14hP', 2), ('c14hQ', 2), ('c14hR', 2)], 'flat'), ('domain', [('c14hP', 2), ('c14hQ', 1), ('c14hR', 2)], 'flat'),
+         ('domain', [('c14hP', 1), ('c14hQ', 1), ('c14hR', 1)], 'flat')],
+        [('face', [('c14hP', 3), ('c14hQ', 3)], 'none'), ('face', [('c14hP', 2), ('c14hQ', 2)], 'none'),
+         ('face', [('c14hP', 3), ('c14hQ', 2)], 'none')],
+        [('interior', [('c14hX', None), ('c14hY', None), ('c14hZ', None)], 'nested'), ('interior', [('c14hX', 2), ('c14hY', 2), ('c14hZ', 2)], 'nested'),
+         ('interior', [('c14hX', 2), ('c14hY', 2), ('c14hZ', None)], 'nested'), ('interior', [('c14hX', None), ('c14hY', 2), ('c14hZ', 2)], 'nested')],
+    ]
+    for i, s in enumerate(sessions):
+        o.evaluations += 1
+        o.count('history:corpus')
+        check_session(o, s, m, 'corpus%d' % i)
+
+
 def oracle(ctx, factor, seeds):
     o = Oracle()
     m = _mods()
@@ -605,6 +949,23 @@ def oracle(ctx, factor, seeds):
         fixed_corpus(o, m, rng)
     except Exception as e:
         o.fail('fixed-corpus-raised:' + type(e).__name__, 'evaluating the fixed corpus (3-member union, Square boundary, interface + faces) raised %r' % (e,))
+    for name, f in (('tie-corpus', lambda: tie_corpus(o, m, rng)), ('history-corpus', lambda: history_corpus(o, m))):
+        try:
+            f()
+        except Exception as e:
+            o.fail('%s-raised:%s' % (name, type(e).__name__), 'evaluating the fixed %s raised %r' % (name, e))
+    try:
+        tie_families(o, m, rng, (150 if ctx.thorough else 30) * factor)
+    except Exception as e:
+        o.fail('tie-pool-raised:' + type(e).__name__, 'building patches / interfaces / domains for the families with members printing alike raised %r' % (e,))
+    for i in range((200 if ctx.thorough else 40) * factor):
+        steps = gen_session(rng)
+        o.evaluations += 1
+        o.count('history:session')
+        try:
+            check_session(o, steps, m, 's')
+        except Exception as e:
+            o.fail('history-raised:' + ' ; '.join(step_str(x) for x in steps), 'the session %s raised %r' % ([step_str(x) for x in steps], e))
     nprog = (600 if ctx.thorough else 120) * factor
     for i in range(nprog):
         dim = rng.choice([1, 2, 2, 3, 3, None])
@@ -634,13 +995,15 @@ def replay(ctx, path):
     o = Oracle()
     m = _mods()
     fixed_corpus(o, m, ctx.rng)
+    tie_corpus(o, m, ctx.rng)
+    history_corpus(o, m)
     key = d.get('key', '')
     # random-program failures are re-found by re-running the oracle with the recorded seed and tier
     if not any(f['key'] == key for f in o.failures) and d.get('kind') == 'oracle':
         import random
         ctx.rng = random.Random('%s/%s/%d' % (PID, d.get('tier', 'quick'), int(d.get('seed', 0))))
         ctx.thorough = d.get('tier') == 'thorough'
-        Pool.counter = 0
+        Pool.counter = TiePool.counter = 0
         correspondence_rng_burn(ctx)
         o = oracle(ctx, 1, [])
     hit = [f for f in o.failures if f['key'] == key]
